@@ -283,6 +283,12 @@ func parseSMTBV(v string) (*big.Int, int, bool) {
 // fpBits turns an SMT FP value into the IEEE bit pattern.
 func fpBits(v string) (uint64, int, bool) {
 	v = strings.TrimSpace(v)
+	if m := regexp.MustCompile(`^\(\(_ to_fp \d+ \d+\) #x([0-9a-fA-F]+)\)$`).FindStringSubmatch(v); m != nil {
+		n, ok := new(big.Int).SetString(m[1], 16)
+		if ok {
+			return n.Uint64(), 4 * len(m[1]), true
+		}
+	}
 	if strings.HasPrefix(v, "(fp ") {
 		f := strings.Fields(strings.TrimSuffix(strings.TrimPrefix(v, "(fp "), ")"))
 		if len(f) != 3 {
@@ -423,6 +429,20 @@ func (s *Session) replayObligation(prop string, o *Obligation) (bool, map[string
 		mv[w.key] = vals[w.t.String()]
 	}
 	det["model_values"] = mv
+	if strings.HasPrefix(o.Fn, "Frequency.") {
+		// native oracle with exact rationals at the model's inputs
+		model := map[string]string{"f": mv["f"], "n1": mv["events"], "t1": mv["d"]}
+		lemma := "duration-accuracy"
+		if o.Fn == "Frequency.Events" {
+			lemma = "events-accuracy"
+		}
+		fo := &Obligation{Name: "Frequency/lemma:" + lemma, Res: &SolveResult{Model: model}}
+		ok, d2 := s.replayFrequency(fo)
+		for k, v := range d2 {
+			det[k] = v
+		}
+		return ok, det
+	}
 	src, testName, err := s.genReplayTest(u, o, mv)
 	_ = inputs
 	if err != nil {
@@ -690,6 +710,18 @@ func (s *Session) genReplayTest(u *Unit, o *Obligation, mv map[string]string) (s
 				bufs = append(bufs, bufP{goName + ".Buffer", bv.Elem, ch, p, l, c})
 				fmt.Fprintf(&pre, "\t%s := C[%s]{Buffer: &Buffer[%s]{channels: channels(%d), data: mem_%s[%d:%d:%d], bitDepth: bitDepth(%d)}, channel: %d}\n",
 					goName, tn, tn, ch, tn, p, p+l, p+c, u.widthOf(bv.Elem), cn)
+			case "PoolAllocator":
+				// a fresh pool with the model's allocator (no pooled items)
+				af := v.Fields["alloc"]
+				_ = af
+				c, _ := mvInt(mv, pn+".alloc.Channels")
+				l, _ := mvInt(mv, pn+".alloc.Length")
+				k, _ := mvInt(mv, pn+".alloc.Capacity")
+				if c < 0 || l < 0 || k < l || c*k > 1<<16 {
+					return "", "", fmt.Errorf("pool allocator of the model is not constructible")
+				}
+				tn := goTypeName(u.poolElem())
+				fmt.Fprintf(&pre, "\tpa_%s := PoolAlloc[%s](Allocator{Channels: %d, Length: %d, Capacity: %d})\n\t%s := &pa_%s\n", sanitize(pn), tn, c, l, k, goName, sanitize(pn))
 			default:
 				return "", "", fmt.Errorf("parameter %s of type %s is not replayable", pn, v.T)
 			}
@@ -728,7 +760,7 @@ func (s *Session) genReplayTest(u *Unit, o *Obligation, mv map[string]string) (s
 		fmt.Fprintf(&sb, "\tsnap_%s := append([]%s(nil), mem_%s...)\n", k, k, k)
 	}
 	for _, b := range bufs {
-		fmt.Fprintf(&sb, "\thdr_%s := fmt.Sprint(%s.channels, len(%s.data), cap(%s.data), %s.bitDepth)\n", sanitize(b.name), b.name, b.name, b.name, b.name)
+		fmt.Fprintf(&sb, "\thdr_%s := fmt.Sprint(%s.channels, len(%s.data), cap(%s.data), %s.bitDepth)\n", identOf(b.name), b.name, b.name, b.name, b.name)
 	}
 	// call
 	callee := fi.Decl.Name.Name
@@ -774,7 +806,7 @@ func (s *Session) genReplayTest(u *Unit, o *Obligation, mv map[string]string) (s
 		fmt.Fprintf(&sb, "\tif !reflect.DeepEqual(snap_%s, mem_%s) {\n\t\tmodified = true\n\t}\n", k, k)
 	}
 	for _, b := range bufs {
-		fmt.Fprintf(&sb, "\tif hdr_%s != fmt.Sprint(%s.channels, len(%s.data), cap(%s.data), %s.bitDepth) {\n\t\tmodified = true\n\t}\n", sanitize(b.name), b.name, b.name, b.name, b.name)
+		fmt.Fprintf(&sb, "\tif hdr_%s != fmt.Sprint(%s.channels, len(%s.data), cap(%s.data), %s.bitDepth) {\n\t\tmodified = true\n\t}\n", identOf(b.name), b.name, b.name, b.name, b.name)
 	}
 	sb.WriteString("\tfmt.Printf(\"REPLAY-MODIFIED %v\\n\", modified)\n")
 	// verdict by obligation kind
@@ -865,3 +897,5 @@ func verifDumpBuf[T SignalTypes](b *Buffer[T], mem []T) verifBufDump {
 }
 
 `
+
+func identOf(s string) string { return strings.NewReplacer(".", "_", "[", "_", "]", "_").Replace(sanitize(s)) }
